@@ -391,10 +391,10 @@ fn random_unary(rng: &mut Rng, depth: usize, budget: &mut usize) -> Unary {
         _ => "JPY",
     };
     let mut a = Amt::new(m, s, c);
-    let mut neg = neg;
     if rng.chance(1, 12) {
-        a.num.mant = -a.num.mant; // a literal written with its own minus sign
-        neg = false; // `--5` is outside the documented grammar
+        // a literal written with its own minus sign; under a unary minus this is `--5 USD`,
+        // i.e. the negation of the literal -5 (C07 gives literals an optional minus)
+        a.num.mant = -a.num.mant;
     }
     Unary { neg, value: Value::Leaf(a) }
 }
